@@ -722,3 +722,43 @@ func isParamSSA(fn *ssa.Function, v ssa.Value, i int) bool {
 	v = strip(v)
 	return i >= 0 && i < len(fn.Params) && v == ssa.Value(fn.Params[i])
 }
+
+
+// msgParamIndex: position of fn's only parameter of type *Message (receiver excluded), fallback when there is none or
+// several. Rules that speak about "the message a function handles" find it by type, not by a frozen position.
+func msgParamIndex(fn *ssa.Function, fallback int) int {
+	idx, n := fallback, 0
+	for i, p := range fn.Params {
+		if i == 0 && fn.Signature.Recv() != nil {
+			continue
+		}
+		if pt, ok := p.Type().(*types.Pointer); ok {
+			if nt, ok := pt.Elem().(*types.Named); ok && nt.Obj().Name() == "Message" {
+				idx = i
+				n++
+			}
+		}
+	}
+	if n == 1 {
+		return idx
+	}
+	return fallback
+}
+
+// rawMsgParam: fn's only parameter of type *RawMessage, or nil.
+func rawMsgParam(fn *ssa.Function) ssa.Value {
+	var out ssa.Value
+	n := 0
+	for _, p := range fn.Params {
+		if pt, ok := p.Type().(*types.Pointer); ok {
+			if nt, ok := pt.Elem().(*types.Named); ok && nt.Obj().Name() == "RawMessage" {
+				out = p
+				n++
+			}
+		}
+	}
+	if n == 1 {
+		return out
+	}
+	return nil
+}
